@@ -348,12 +348,12 @@ theorem findReplaced_np (k : DecryptionKey) (l : List ExtXKey) (h : none ∉ l) 
       · simp
       · exact ih (fun hx => h (List.mem_cons_of_mem _ hx))
 
-theorem showKeyStep_np (st : List ExtXKey × Str) (k : ExtXKey) : showKeyStep st k ≠ .panic := by
+theorem writeKeyStep_np (st : List ExtXKey × List Line) (k : ExtXKey) : writeKeyStep st k ≠ .panic := by
   obtain ⟨avail, out⟩ := st
   cases k with
-  | none => simp [showKeyStep]
+  | none => simp [writeKeyStep]
   | some dk =>
-    simp only [showKeyStep]
+    simp only [writeKeyStep]
     split
     · simp
     · have hno : none ∉ setInsert (some (stripIv dk)) (setRemove none avail) := by
@@ -367,25 +367,32 @@ theorem showKeyStep_np (st : List ExtXKey × Str) (k : ExtXKey) : showKeyStep st
       | err => simp
       | panic => exact absurd hf this
 
+theorem writeLines_never_panics (p : MediaPlaylist) : p.writeLines ≠ .panic := by
+  unfold MediaPlaylist.writeLines
+  have : ∀ st, foldRes writeSegStep st p.segments ≠ .panic := by
+    intro st
+    apply foldRes_ne_panic
+    intro st s
+    simp only [writeSegStep]
+    have := foldRes_ne_panic writeKeyStep writeKeyStep_np st s.keys
+    cases hf : foldRes writeKeyStep st s.keys with
+    | ok r => simp
+    | err => simp
+    | panic => exact absurd hf this
+  cases hf : foldRes writeSegStep ([], p.headerLines) p.segments with
+  | ok r => simp
+  | err => simp
+  | panic => exact absurd hf (this _)
+
 /-- **C05 (writer).** `to_string()` of ANY media playlist value (parsed or built, whatever its key
 lists look like) does not reach the writer's `unreachable!`. -/
 theorem show_never_panics (p : MediaPlaylist) : p.show ≠ .panic := by
   unfold MediaPlaylist.show
-  simp only
-  have : ∀ st, foldRes showSegStep st p.segments ≠ .panic := by
-    intro st
-    apply foldRes_ne_panic
-    intro st s
-    simp only [showSegStep]
-    have := foldRes_ne_panic showKeyStep showKeyStep_np st s.keys
-    cases hf : foldRes showKeyStep st s.keys with
-    | ok r => simp
-    | err => simp
-    | panic => exact absurd hf this
-  split
-  · simp
-  · simp
-  · rename_i h; exact absurd h (this _)
+  have := writeLines_never_panics p
+  cases hf : p.writeLines with
+  | ok r => simp
+  | err => simp
+  | panic => exact absurd hf this
 
 /-! ## non-vacuity: the inputs that used to panic are now errors (typed-level evaluation) -/
 example : unquote ['"'] = [] := by decide
